@@ -112,6 +112,7 @@ def required(tier):
         "dimerr_expected_and_raised": 5000 if big else 500,
         "bare_number_addsub_refused": 400 if big else 40,
         "converted_operand_ops": 20000 if big else 2000,
+        "result_aliasing_checks": 5000 if big else 500,
         "bare_zero_or_nan_addsub_accepted": 400 if big else 40,
         "operand_snapshots": 200000 if big else 20000,
         "container_invariant_evals": 100000,
@@ -2133,6 +2134,8 @@ def run_shard(spec, rec):
                      and all(v == int(v) for v in m.root(c)[2].values())]
             rec.count("context_pool_units", len(names))
         one_registry(ureg, m, names, spec["trees"], spec["name"])
+        if spec["mode"] == "ndarray":
+            run_result_aliasing(ureg, m, names, rec, rng, pint, 300 if spec.get("tier") != "thorough" else 5000)
         if spec.get("context"):
             run_converted_operands(ureg, m, names, rec, rng, nit, spec["context"], pint,
                                    400 if spec.get("tier") != "thorough" else 6000)
@@ -2218,3 +2221,58 @@ def run_converted_operands(ureg, m, names, rec, rng, nit, ctx, pint, n):
                     rec.violation("result-expected-but-error-raised", w, op=opn, workload="converted-operand")
         if passed:
             ureg.enable_contexts(ctx)
+
+
+
+def run_result_aliasing(ureg, m, names, rec, rng, pint, n):
+    """The result of a PLAIN operator is a new value: an in-place operator applied to it afterwards changes
+    nothing but that result (in particular not the operands it came from) - also for the operands that look
+    trivial: a bare 0, 0.0, an array of zeros, a zero quantity, the number 1."""
+    import numpy as np
+    import operator
+    Q = ureg.Quantity
+    for i in range(n):
+        u = rng.choice(names)
+        a = np.array([rng.uniform(1, 9) for _ in range(3)])
+        qa = Q(a.copy(), u)
+        kind = i % 8
+        if kind == 0:
+            other, ops = 0, (operator.add, operator.sub, lambda x, y: y + x)
+        elif kind == 1:
+            other, ops = 0.0, (operator.add, operator.sub, lambda x, y: y + x)
+        elif kind == 2:
+            other, ops = np.zeros(3), (operator.add, operator.sub)
+        elif kind == 3:
+            other, ops = Q(0.0, u), (operator.add, operator.sub, lambda x, y: y + x)
+        elif kind == 4:
+            other, ops = 1, (operator.mul, operator.truediv, lambda x, y: y * x)
+        elif kind == 5:
+            other, ops = 1.0, (operator.mul, operator.truediv)
+        elif kind == 6:
+            other, ops = Q(1.0, ""), (operator.mul, operator.truediv)
+        else:
+            other, ops = Q(np.zeros(3), u), (operator.add, operator.sub)
+        for op in ops:
+            rec.count("result_aliasing_checks")
+            rec.case(("alias", kind, u), nontrivial=True)
+            before = qa.magnitude.copy()
+            obefore = other.magnitude.copy() if hasattr(other, "magnitude") and hasattr(other.magnitude, "copy") else None
+            try:
+                r = op(qa, other)
+            except Exception:  # noqa: BLE001
+                rec.count("result_aliasing_op_refused")
+                continue
+            w = {"left": f"Q({before.tolist()}, '{u}')", "other": repr(other)[:80], "operand_kind": kind}
+            shared = hasattr(r, "magnitude") and isinstance(r.magnitude, np.ndarray) and np.shares_memory(r.magnitude, qa.magnitude)
+            try:
+                r += r            # an in-place step on the RESULT
+                r *= 3
+            except Exception:  # noqa: BLE001
+                pass
+            changed = not np.array_equal(qa.magnitude, before) or str(qa.units) != str(Q(1.0, u).units)
+            if obefore is not None and not np.array_equal(other.magnitude, obefore):
+                changed = True
+            if changed or shared:
+                rec.violation("plain-result-shares-state-with-an-operand",
+                              dict(w, operand_after=qa.magnitude.tolist(), shares_memory=bool(shared)),
+                              op="alias", operand_kind=str(kind), operand_changed=bool(changed))
